@@ -1,1 +1,97 @@
-def main : IO Unit := pure ()
+import NfcVerif.Model.CtlC03
+open NfcVerif NfcVerif.Tlv
+
+/-! line-protocol driver for the C03 additions: control TLV ranges, vendor format, protect -/
+
+def cfgOf3 (k : String) : Option Cfg :=
+  if k = "t2" then some t2Cfg else if k = "t1s" then some (t1Cfg 1) else if k = "t1d" then some (t1Cfg 8) else none
+
+def insRange3 (r : Nat × Nat) : List (Nat × Nat) → List (Nat × Nat)
+  | [] => [r]
+  | x :: xs => if r.1 ≤ x.1 then r :: x :: xs else x :: insRange3 r xs
+
+def mergeRanges3 : List (Nat × Nat) → List (Nat × Nat)
+  | [] => []
+  | [x] => [x]
+  | x :: y :: rest => if y.1 ≤ x.2 then mergeRanges3 ((x.1, max x.2 y.2) :: rest) else x :: mergeRanges3 (y :: rest)
+termination_by l => l.length
+
+def canonSkip3 (s : Skip) : String :=
+  let rs := mergeRanges3 ((s.filter fun r => r.1 < r.2).foldr insRange3 [])
+  if rs.isEmpty then "-" else ",".intercalate (rs.map fun r => s!"{r.1}-{r.2}")
+
+def showCmds3 (cs : List Cmd) : String :=
+  if cs.isEmpty then "-" else ",".intercalate (cs.map fun c => s!"{c.1}:{toHex c.2}")
+
+def showBool : Py Bool → String
+  | .ok true => "true"
+  | .ok false => "false"
+  | .error e => "exc " ++ e.name
+
+def showLayout (r : Py (Option Layout)) : String :=
+  match r with
+  | .error e => "exc " ++ e.name
+  | .ok none => "none"
+  | .ok (some L) =>
+    s!"L {L.off} {L.cap} {if L.readable then 1 else 0} {if L.writeable then 1 else 0} {L.areaEnd} {canonSkip3 L.skip} {toHex L.ndef}"
+
+def showRead3 (c : Cfg) (m : Bytes) : String :=
+  if c.t1 then showLayout (readNdef c m) else showLayout (readNdefT2 m)
+
+/-- the 256 ranges of one (type, d0, d2): size field 0 .. 255 -/
+def doCtl (limit : Nat) (lock : Bool) (d0 d2 : Nat) : String :=
+  ",".intercalate ((List.range 256).map fun d1 =>
+    match ctlRange lock limit [d0, d1, d2] with
+    | .ok rg => s!"{rg.1}-{rg.2}"
+    | .error e => "exc " ++ e.name)
+
+def doFormatT1V (k : String) (m : Bytes) (wipe version : Option Nat) : String :=
+  let r := if k = "t1s" then formatTopazV m version wipe else formatTopaz512V m version wipe
+  let c := if k = "t1s" then t1Cfg 1 else t1Cfg 8
+  match r with
+  | .error e => "exc " ++ e.name
+  | .ok none => s!"false | - | {showRead3 c m}"
+  | .ok (some m') =>
+    let cmds := diffUnits c.unit m m'
+    s!"true | {showCmds3 cmds} | {showRead3 c (apply m cmds)}"
+
+def showOp (o : OpOut) (tail : String) : String :=
+  s!"{showBool o.res} | {showCmds3 o.cmds} | {tail}"
+
+def optNat (i : Int) : Option Nat := if i < 0 then none else some i.toNat
+
+def handle (line : String) : String :=
+  match line.splitOn " " with
+  | ["ctl", k, t, d0, d2] => match t.toNat?, d0.toNat?, d2.toNat? with
+    | some t, some d0, some d2 => doCtl (if k = "t1" then 0x800 else 0x100000) (t = 1) d0 d2
+    | _, _, _ => "bad-op"
+  | ["hyp", k, mh] => match cfgOf3 k, parseHex mh with
+    | some c, some m => (match readNdef c m with
+      | .ok (some L) => if chainOk c m L.areaEnd then "1" else "0"
+      | _ => "0")
+    | _, _ => "bad-op"
+  | ["ft1v", k, mh, w, v] => match parseHex mh, w.toInt?, v.toInt? with
+    | some m, some w, some v => doFormatT1V k m (optNat w) (optNat v) | _, _, _ => "bad-op"
+  | ["nf", fh, mh, w] => match parseHex fh, parseHex mh, w.toInt? with
+    | some f, some m, some w =>
+      let o := if f.isEmpty then formatT2Out m (optNat w) else formatNxp f m (optNat w)
+      showOp o (showRead3 t2Cfg (apply m o.cmds))
+    | _, _, _ => "bad-op"
+  | ["pt2", mh] => match parseHex mh with
+    | some m => let o := protectT2 m; showOp o (toHex (apply m o.cmds))
+    | none => "bad-op"
+  | ["pnxp", k, p, mh] => match p.toNat?, parseHex mh with
+    | some p, some m =>
+      let kind := if k = "ulc" then NxpKind.ulc else if k = "n203" then NxpKind.n203 else NxpKind.n21x p
+      let o := protectNxp kind m
+      showOp o (toHex (nxpApply m o.cmds))
+    | _, _ => "bad-op"
+  | ["pt1", k, mh] => match parseHex mh with
+    | some m =>
+      let kind := if k = "topaz" then T1Kind.topaz else if k = "topaz512" then T1Kind.topaz512 else T1Kind.generic
+      let o := protectT1 kind (if k = "topaz" then 1 else 8) m
+      showOp o (toHex (apply m o.cmds))
+    | none => "bad-op"
+  | _ => "bad-op"
+
+def main : IO Unit := runDriver handle
